@@ -107,6 +107,9 @@ class Report:
         rev = [o for o in self.obs if o.status == "reviewed"]
         out_dir = os.path.join(VERIF, "out")
         os.makedirs(out_dir, exist_ok=True)
+        for f in os.listdir(out_dir):
+            if f.startswith("violation-%s-" % self.prop):
+                os.unlink(os.path.join(out_dir, f))
         # replay files
         lines = []
         for o in known:
